@@ -1,6 +1,6 @@
 (* C13 — lemmas for the cache key builders. *)
 From Coq Require Import String.
-From Coq Require Import NArith List Bool Lia.
+From Coq Require Import NArith Arith List Bool Lia.
 Import ListNotations.
 From Verif Require Import Lib.Corr Gen.C13 Model.C13.
 Open Scope N_scope.
@@ -394,3 +394,115 @@ Proof.
   split; [exact uquote_ok|]. split; [exact udec_inj|].
   vm_compute. discriminate.
 Qed.
+
+(* ---- the matchers cache under concurrent lookups --------------------------------------------------- *)
+
+Section FlightProofs.
+  Variables sfk lruk : matcher -> str.
+  Variable items : list matcher.
+  (* the two key functions separate the different items of the history *)
+  Hypothesis sfk_inj : forall a b, In a items -> In b items -> sfk a = sfk b -> a = b.
+  Hypothesis lruk_inj : forall a b, In a items -> In b items -> lruk a = lruk b -> a = b.
+
+  Definition item (i : nat) : option matcher := nth_error items i.
+
+  Definition finv (st : fstate) : Prop :=
+    (forall k m, In (k, m) (f_lru st) -> In m items /\ k = lruk m) /\
+    (forall k j, In (k, j) (f_fl st) -> exists mj, item j = Some mj /\ k = sfk mj) /\
+    (forall i j, f_ls st i = LWait j -> exists mi mj, item i = Some mi /\ item j = Some mj /\ sfk mi = sfk mj) /\
+    (forall i r, f_ls st i = LDone r -> item i = Some r).
+
+  Lemma assoc_s_in {A} : forall (l : list (str * A)) k v, assoc_s k l = Some v -> exists k', In (k', v) l /\ k' = k.
+  Proof.
+    induction l as [|[k' v'] l IH]; intros k v H; cbn [assoc_s] in H; [discriminate|].
+    destruct (str_eqb k' k) eqn:E.
+    - inversion H; subst. apply str_eqb_spec in E. exists k'. split; [left; reflexivity|exact E].
+    - destruct (IH k v H) as (k2 & Hin & ->). exists k. split; [right; exact Hin|reflexivity].
+  Qed.
+
+  Lemma fstep_inv st e : finv st -> finv (fstep sfk lruk items st e).
+  Proof.
+    intros (I1 & I2 & I3 & I4). destruct e as [i|i]; cbn [fstep].
+    - destruct (f_ls st i) eqn:Ls; try exact (conj I1 (conj I2 (conj I3 I4))).
+      destruct (nth_error items i) as [m|] eqn:Ei; [|exact (conj I1 (conj I2 (conj I3 I4)))].
+      assert (Hm : In m items) by (apply (nth_error_In _ _ Ei)).
+      destruct (assoc_s (sfk m) (f_fl st)) as [j|] eqn:Af.
+      + (* waits for j *)
+        apply assoc_s_in in Af as (k' & Hin & ->). destruct (I2 _ _ Hin) as (mj & Ej & Ek).
+        (split; [|split; [|split]]); cbn [f_lru f_fl f_ls]; auto.
+        * intros x y Hx. unfold upd_ls in Hx. destruct (Nat.eqb_spec x i) as [->|_]; [|apply (I3 _ _ Hx)].
+          inversion Hx; subst y. exists m, mj. auto.
+        * intros x r Hx. unfold upd_ls in Hx. destruct (Nat.eqb_spec x i) as [->|_]; [discriminate|apply (I4 _ _ Hx)].
+      + destruct (assoc_s (lruk m) (f_lru st)) as [r|] eqn:Al.
+        * (* cache hit: the cached item has the same LRU key, hence is the same item *)
+          apply assoc_s_in in Al as (k' & Hin & Ek). destruct (I1 _ _ Hin) as (Hr & Ek'). subst k'.
+          assert (r = m) by (apply lruk_inj; auto). subst r.
+          (split; [|split; [|split]]); cbn [f_lru f_fl f_ls]; auto.
+          -- intros x y Hx. unfold upd_ls in Hx. destruct (Nat.eqb_spec x i) as [->|_]; [discriminate|apply (I3 _ _ Hx)].
+          -- intros x r Hx. unfold upd_ls in Hx. destruct (Nat.eqb_spec x i) as [->|_]; [inversion Hx; subst; exact Ei|apply (I4 _ _ Hx)].
+        * (split; [|split; [|split]]); cbn [f_lru f_fl f_ls]; auto.
+          -- intros k j [Hx|Hx]; [inversion Hx; subst; exists m; auto|apply (I2 _ _ Hx)].
+          -- intros x y Hx. unfold upd_ls in Hx. destruct (Nat.eqb_spec x i) as [->|_]; [discriminate|apply (I3 _ _ Hx)].
+          -- intros x r Hx. unfold upd_ls in Hx. destruct (Nat.eqb_spec x i) as [->|_]; [discriminate|apply (I4 _ _ Hx)].
+    - destruct (f_ls st i) eqn:Ls; try exact (conj I1 (conj I2 (conj I3 I4))).
+      destruct (nth_error items i) as [m|] eqn:Ei; [|exact (conj I1 (conj I2 (conj I3 I4)))].
+      assert (Hm : In m items) by (apply (nth_error_In _ _ Ei)).
+      (split; [|split; [|split]]); cbn [f_lru f_fl f_ls].
+      + intros k m' [Hx|Hx]; [inversion Hx; subst; auto|apply (I1 _ _ Hx)].
+      + intros k j Hx. apply filter_In in Hx as [Hx _]. apply (I2 _ _ Hx).
+      + intros x y Hx. destruct (Nat.eqb_spec x i) as [->|_]; [discriminate|].
+        destruct (f_ls st x) eqn:Lx; try discriminate.
+        destruct (Nat.eqb_spec j i) as [->|_]; [discriminate|]. inversion Hx; subst y. apply (I3 _ _ Lx).
+      + intros x r Hx. destruct (Nat.eqb_spec x i) as [->|_]; [inversion Hx; subst; exact Ei|].
+        destruct (f_ls st x) eqn:Lx; try discriminate.
+        * destruct (Nat.eqb_spec j i) as [->|_]; [|discriminate]. inversion Hx; subst r.
+          (* a waiter of i has the same singleflight key as i: it is the same item *)
+          destruct (I3 _ _ Lx) as (mi & mj & Ex & Ej & Ek). unfold item in *. rewrite Ei in Ej. inversion Ej; subst mj.
+          rewrite Ex. f_equal. apply sfk_inj; auto. apply (nth_error_In _ _ Ex).
+        * inversion Hx; subst. apply (I4 _ _ Lx).
+  Qed.
+
+  Lemma frun_inv : forall evs st, finv st -> finv (fold_left (fstep sfk lruk items) evs st).
+  Proof. induction evs as [|e r IH]; intros st I; cbn [fold_left]; [exact I|]. apply IH. apply fstep_inv. exact I. Qed.
+
+  (* for EVERY interleaving of begin / finish events, every lookup that returns gets the
+     matcher of its own item *)
+  Lemma inflight_own_item evs i r : f_ls (frun sfk lruk items evs) i = LDone r -> nth_error items i = Some r.
+  Proof.
+    intro H. assert (I : finv finit) by (repeat split; cbn; intros; try contradiction; discriminate).
+    destruct (frun_inv evs finit I) as (_ & _ & _ & I4). apply (I4 _ _ H).
+  Qed.
+End FlightProofs.
+
+(* the converse: if the singleflight key conflates two different items, the interleaving
+   "begin 0, begin 1, finish 0" answers lookup 1 with item 0 — whatever the LRU key is *)
+Lemma inflight_conflated sfk lruk m0 m1 : sfk m0 = sfk m1 ->
+  f_ls (frun sfk lruk [m0; m1] [FBegin 0; FBegin 1; FFinish 0]) 1 = LDone m0.
+Proof.
+  intro E. unfold frun. cbn [fold_left fstep finit f_ls f_fl f_lru nth_error assoc_s upd_ls Nat.eqb].
+  rewrite <- E. assert (S : str_eqb (sfk m0) (sfk m0) = true) by (apply str_eqb_spec; reflexivity).
+  cbn [assoc_s]. rewrite S. cbn [f_ls f_fl f_lru upd_ls Nat.eqb nth_error]. reflexivity.
+Qed.
+
+Lemma flight_key_inj a b : flight_key a = flight_key b -> a = b.
+Proof. unfold flight_key. apply (matcher_key_inj uquote_m). exact uquote_ok. Qed.
+
+Lemma flight_results_own items evs i r :
+  nth_error (flight_results flight_key flight_key items evs) i = Some (Some r) -> nth_error items i = Some r.
+Proof.
+  unfold flight_results. intro H. rewrite nth_error_map in H.
+  destruct (nth_error (seq 0 (length items)) i) as [n0|] eqn:E; [|discriminate].
+  assert (Hi : (i < length (seq 0 (length items)))%nat) by (apply nth_error_Some; congruence).
+  rewrite seq_length in Hi. apply (nth_error_nth _ _ 0%nat) in E. rewrite seq_nth in E by exact Hi. cbn in E. subst n0.
+  cbn [option_map] in H.
+  destruct (f_ls (frun flight_key flight_key items evs) i) eqn:L; inversion H; subst.
+  apply (inflight_own_item flight_key flight_key items) with (evs := evs).
+  - intros a b _ _ E. apply flight_key_inj. exact E.
+  - intros a b _ _ E. apply flight_key_inj. exact E.
+  - exact L.
+Qed.
+
+(* tie T: the singleflight key, the LRU lookup key and the LRU store key are the same expression *)
+Lemma get_or_set_keys :
+  getOrSetKeys = ["key := cacheKey(m)"; "c.sf.Do(key)"; "c.cache.Get(key)"; "c.cache.Add(key)"]%string.
+Proof. reflexivity. Qed.
